@@ -231,6 +231,18 @@ def run(c, prog):
     for fname, nm in names.items():
         f = common.find_fn(prog, SS + fname + "$")
         calls = [it for it in ioseq.flat_calls(seq(prog, f))]
+        # private helpers of the serializer state that the phase calls (a chunk built in `build_x_chunk(&self, ..)`)
+        phase_paths = {common.find_fn(prog, SS + n_ + "$").path for n_ in names}
+        seen_h, todo = set(), [f]
+        while todo:
+            cur = todo.pop()
+            for x in core.walk_fn(cur):
+                if x.get("k") in ("Call", "MethodCall"):
+                    h = prog.fns.get(core.callee(x) or "")
+                    if h is not None and h.body is not None and h.path not in seen_h and h.path not in phase_paths and h.path.startswith("rbx_binary::serializer::state::SerializerState") and h.path != f.path:
+                        seen_h.add(h.path)
+                        todo.append(h)
+                        calls += [it for it in ioseq.flat_calls(seq(prog, h))]
         news = [it for it in calls if it[1] == "ChunkBuilder::new"]
         dumps = [it for it in calls if it[1] == "dump"]
         inst = f"chunk:{nm.decode()}"
